@@ -2,8 +2,8 @@
    every in-flight message carries the (global) time at which its sender built it; each node remembers the
    time of its last peer-loss detection and the build time of the newest heartbeat it has handled.
    Real code: HeartbeatMessage.TimestampNs is the sender's build time; comparing two timestamps of the SAME
-   sender needs no clock synchronisation (fix_so), comparing one with the receiver's loss time does (fix_sl:
-   specification only).  [sdecide] turns a delivery of a stale message into [EStale]. *)
+   sender needs no clock synchronisation (fix_so: in /repo since f8a6845, Manager.lastPeerTimestampNs), comparing
+   one with the receiver's loss time does (fix_sl: specification only, open finding).  [sdecide] turns a delivery of a stale message into [EStale]. *)
 From OV Require Import Common.Base C10.Model.
 
 Record sfix := mkSfix {
